@@ -2,6 +2,8 @@ import Knee.Model.Basic
 import Knee.Model.Wire
 import Knee.Model.Mapping
 import Knee.Model.RdpM
+import Knee.Model.Filters
+import Knee.Model.PostM
 /-
 Correspondence driver.  `lake env lean --run Driver.lean` (or the compiled `driver` exe).
 Harness → driver : `CALL <fn> <arg> <arg> …`
@@ -85,6 +87,60 @@ def dispatch (out inp : IO.FS.Stream) (fn : String) (args : List String) : M Str
     let ts ← orErr (parseList? parseRat? ts) "ts"
     let r ← minPointRdpM (fun t => oAccept out inp false t) (oDst out inp) (oKey out inp) n mp (sortDesc ts)
     pure (showNats r)
+  | "worst", [hs, ks] =>
+    let hs ← orErr (parseList? parseRat? hs) "heights"
+    let ks ← orErr (parseList? parseNat? ks) "ks"
+    pure (showNats (worstFilter (fun k => hs[k]?.getD 0) ks))
+  | "corner", [mode, n, t, ks, ious] =>
+    let n ← orErr (parseNat? n) "n"
+    let t ← orErr (parseRat? t) "t"
+    let ks ← orErr (parseList? parseNat? ks) "ks"
+    let ious ← orErr (parseList? parseRat? ious) "ious"
+    let tbl := ks.zip ious
+    let iou := fun k => ((tbl.find? (fun p => p.1 == k)).map (·.2)).getD 0
+    pure (showNats (if mode == "filter" then cornerFilter n iou t ks else cornerSelect n iou t ks))
+  | "cornerIoU", [a, b, c] =>
+    let a ← orErr (parseList? parseRat? a) "p0"
+    let b ← orErr (parseList? parseRat? b) "p1"
+    let c ← orErr (parseList? parseRat? c) "p2"
+    match a, b, c with
+    | [ax, ay], [bx, by'], [cx, cy] => pure (showRat (cornerIoU (ax, ay) (bx, by') (cx, cy)))
+    | _, _, _ => throw "points"
+  | "link", [t, n] =>
+    let t ← orErr (parseRat? t) "t"
+    let n ← orErr (parseNat? n) "n"
+    let r ← linkLabelsM (fun s i => askRat out inp s!"dist {s} {i}") t n
+    pure (showNats r)
+  | "linkQ", [kind, t, xs] =>
+    let t ← orErr (parseRat? t) "t"
+    let xs ← orErr (parseList? parseRat? xs) "xs"
+    let x := fun i => xs[i]?.getD 0
+    let n := xs.length
+    let r := match kind with
+      | "single" => singleLinkage x n t
+      | "complete" => completeLinkage x n t
+      | "centroid" => centroidLinkage x n t
+      | _ => averageLinkage x n t
+    pure (showNats r)
+  | "distQ", [kind, xs, start, i] =>
+    let xs ← orErr (parseList? parseRat? xs) "xs"
+    let start ← orErr (parseNat? start) "start"
+    let i ← orErr (parseNat? i) "i"
+    let x := fun i => xs[i]?.getD 0
+    let L := x (xs.length - 1) - x 0
+    let r := match kind with
+      | "single" => distSingle x L start i
+      | "complete" => distComplete x L start i
+      | "centroid" => distCentroid x L start i
+      | _ => distAverage x L start i
+    pure (showRat r)
+  | "cm", [t, n, nk, ne] =>
+    let t ← orErr (parseRat? t) "t"
+    let n ← orErr (parseNat? n) "n"
+    let nk ← orErr (parseNat? nk) "nk"
+    let ne ← orErr (parseNat? ne) "ne"
+    let r ← cmM (fun e => askRats out inp s!"row {e}") t n nk ne
+    pure s!"{r.1} {r.2.1} {r.2.2.1} {r.2.2.2}"
   | _, _ => throw s!"unknown call {fn}/{args.length}"
 
 partial def loop (out inp : IO.FS.Stream) : IO Unit := do
